@@ -570,27 +570,46 @@ Section LtsProofs.
   Variable ps : plugins_chk S.
   Variable blocked : bytes -> S -> bool.
   Variable env_step : N -> S -> S * bool.
-  Notation step := (lstep ps blocked env_step).
-  Notation runl := (lrun ps blocked env_step).
+  Variable ack : S -> S.
+  Notation stepg := (lstep_gen ps blocked env_step ack).
+  Notation step := (lstep ps blocked env_step ack).
+  Notation step0 := (lstep_v0 ps blocked env_step ack).
+  Notation runl := (lrun ps blocked env_step ack).
+  Notation task := (run_task ps blocked ack).
 
-  (** An event of another connection, or of the environment, never reads or writes this
-      connection's entry. *)
-  Lemma lstep_other (st : lts_state S) ev k :
-    event_conn ev <> Some k -> conn_get k (l_conns (step st ev)) = conn_get k (l_conns st).
+  Lemma run_task_other fixed (st : lts_state S) k req reads j :
+    j <> k -> conn_get j (l_conns (task fixed st k req reads)) = conn_get j (l_conns st).
   Proof.
-    intros H. destruct ev as [i|i b|i|i|e]; cbn [lstep event_conn] in *.
+    intros H. unfold run_task. destruct (blocked req (l_env st)); [reflexivity|].
+    destruct (handle_chk ps req (l_env st)) as [[hr s']| |]; cbn [with_conn l_conns];
+      apply conn_get_set_other; congruence.
+  Qed.
+
+  (** An event of another connection, of the listener or of the environment never reads or writes
+      this connection's entry (before and after the repairs). *)
+  Lemma lstep_gen_other fixed (st : lts_state S) ev k :
+    event_conn ev <> Some k -> conn_get k (l_conns (stepg fixed st ev)) = conn_get k (l_conns st).
+  Proof.
+    intros H. destruct ev as [i|i b|i|i|e|i| | |]; cbn [lstep_gen event_conn] in *.
     - destruct (conn_get i (l_conns st)); [reflexivity|].
       cbn [with_conn l_conns]. apply conn_get_set_other. congruence.
-    - destruct (conn_get i (l_conns st)) as [[| | |]|]; try reflexivity.
+    - destruct (conn_get i (l_conns st)) as [[|buf|req|d|req h]|]; try reflexivity.
       cbn [with_conn l_conns]. apply conn_get_set_other. congruence.
-    - destruct (conn_get i (l_conns st)) as [[| | |]|]; try reflexivity.
+    - destruct (conn_get i (l_conns st)) as [[|buf|req|d|req h]|]; try reflexivity.
       cbn [with_conn l_conns]. apply conn_get_set_other. congruence.
-    - destruct (conn_get i (l_conns st)) as [[| |req|]|]; try reflexivity.
-      destruct (blocked req (l_env st)); [reflexivity|].
-      destruct (handle_chk ps req (l_env st)) as [[hr s']| |]; cbn [with_conn l_conns];
-        apply conn_get_set_other; congruence.
+    - destruct (conn_get i (l_conns st)) as [[|buf|req|d|req [|]]|]; try reflexivity;
+        apply run_task_other; congruence.
     - destruct (env_step e (l_env st)). reflexivity.
+    - destruct (conn_get i (l_conns st)) as [[|buf|req|d|req h]|]; try reflexivity;
+        cbn [with_conn l_conns]; apply conn_get_set_other; congruence.
+    - destruct (l_listener st); reflexivity.
+    - destruct (l_listener st); reflexivity.
+    - destruct fixed; [reflexivity|]. destruct (l_listener st); reflexivity.
   Qed.
+
+  Lemma lstep_other (st : lts_state S) ev k :
+    event_conn ev <> Some k -> conn_get k (l_conns (step st ev)) = conn_get k (l_conns st).
+  Proof. apply lstep_gen_other. Qed.
 
   Lemma lrun_others evs : forall (st : lts_state S) k,
     Forall (fun ev => event_conn ev <> Some k) evs ->
@@ -611,7 +630,7 @@ Section LtsProofs.
     (forall j, j <> k -> conn_get j (l_conns (step st (EHandle k))) = conn_get j (l_conns st)).
   Proof.
     intros T Hk Hb. split.
-    - cbn [lstep]. rewrite Hk, Hb.
+    - unfold lstep. cbn [lstep_gen]. rewrite Hk. unfold run_task. rewrite Hb.
       destruct (handle_chk_total S ps req (l_env st) T) as (hr & s' & E & St). rewrite E.
       cbn [l_conns]. exists (hr_data hr). split; [apply conn_get_set_same|exact St].
     - intros j Hj. apply lstep_other. cbn [event_conn]. congruence.
@@ -643,32 +662,302 @@ Section LtsProofs.
     conn_get k (l_conns st1) = Some (PComplete req) /\ l_listener st1 = Listening /\ l_env st1 = l_env st /\
     (forall j, j <> k -> conn_get j (l_conns st1) = conn_get j (l_conns st)).
   Proof.
-    intros Hl Hk. cbn zeta. unfold lrun. cbn [fold_left].
-    assert (E1 : step st (EConnect k) = with_conn st k (POpen [])).
-    { cbn [lstep]. rewrite Hk, Hl. reflexivity. }
+    intros Hl Hk. cbn zeta. unfold lrun, lstep. cbn [fold_left].
+    assert (E1 : stepg true st (EConnect k) = with_conn st k (POpen [])).
+    { cbn [lstep_gen]. rewrite Hk, Hl. reflexivity. }
     rewrite E1.
-    assert (E2 : step (with_conn st k (POpen [])) (ESend k req) = with_conn (with_conn st k (POpen [])) k (POpen req)).
-    { cbn [lstep with_conn l_conns]. rewrite conn_get_set_same. reflexivity. }
+    assert (E2 : stepg true (with_conn st k (POpen [])) (ESend k req) = with_conn (with_conn st k (POpen [])) k (POpen req)).
+    { cbn [lstep_gen with_conn l_conns]. rewrite conn_get_set_same. reflexivity. }
     rewrite E2.
-    assert (E3 : step (with_conn (with_conn st k (POpen [])) k (POpen req)) (EFin k)
+    assert (E3 : stepg true (with_conn (with_conn st k (POpen [])) k (POpen req)) (EFin k)
                  = with_conn (with_conn (with_conn st k (POpen [])) k (POpen req)) k (PComplete req)).
-    { cbn [lstep with_conn l_conns]. rewrite conn_get_set_same. reflexivity. }
+    { cbn [lstep_gen with_conn l_conns]. rewrite conn_get_set_same. reflexivity. }
     rewrite E3. cbn [with_conn l_conns l_listener l_env].
     split; [apply conn_get_set_same|]. split; [exact Hl|]. split; [reflexivity|].
     intros j Hj. rewrite !conn_get_set_other by exact Hj. reflexivity.
   Qed.
 
-  (** What clients do (connect, send, half-close) never closes the listener and never changes
-      the state: only a response with [close] or the environment does. *)
+  (** What clients do (connect, send, half-close, close) never changes the listener and never
+      changes the state: only a response with [close], the environment, or what happens to the
+      socket file does. *)
   Lemma client_events_keep_listener (st : lts_state S) ev :
-    (forall k, ev <> EHandle k) -> (forall e, ev <> EEnv e) ->
+    (forall k, ev <> EHandle k) -> event_conn ev <> None ->
     l_listener (step st ev) = l_listener st /\ l_env (step st ev) = l_env st.
   Proof.
-    intros H1 H2. destruct ev as [i|i b|i|i|e]; cbn [lstep].
+    intros H1 H2. unfold lstep. destruct ev as [i|i b|i|i|e|i| | |]; cbn [lstep_gen event_conn] in *; try congruence.
     - destruct (conn_get i (l_conns st)); split; reflexivity.
-    - destruct (conn_get i (l_conns st)) as [[| | |]|]; split; reflexivity.
-    - destruct (conn_get i (l_conns st)) as [[| | |]|]; split; reflexivity.
+    - destruct (conn_get i (l_conns st)) as [[|buf|req|d|req h]|]; split; reflexivity.
+    - destruct (conn_get i (l_conns st)) as [[|buf|req|d|req h]|]; split; reflexivity.
     - exfalso. apply (H1 i). reflexivity.
-    - exfalso. apply (H2 e). reflexivity.
+    - destruct (conn_get i (l_conns st)) as [[|buf|req|d|req h]|]; split; reflexivity.
+  Qed.
+
+  (** ---- the socket file, accept errors ------------------------------------------------------------------- *)
+
+  (** Removing the socket file and the re-listen that follows leave every connection and the state
+      as they were; the listener listens again. *)
+  Lemma unlink_relisten (st : lts_state S) :
+    l_listener st = Listening ->
+    let st1 := step st EUnlink in
+    l_listener st1 = Unlinked /\ l_env st1 = l_env st /\ l_conns st1 = l_conns st /\
+    step st1 ERelisten = st.
+  Proof.
+    intros Hl. cbn zeta. unfold lstep. cbn [lstep_gen]. rewrite Hl. cbn [with_listener l_listener l_env l_conns].
+    repeat split. destruct st as [l e c]. cbn in Hl. subst l. reflexivity.
+  Qed.
+
+  (** While the file is gone nobody can connect; as soon as the path is bound again, connections are
+      accepted again ([accept_not_blocked] applies: the listener is [Listening]). *)
+  Lemma unlinked_refuses_then_accepts (st : lts_state S) k :
+    l_listener st = Unlinked -> conn_get k (l_conns st) = None ->
+    conn_get k (l_conns (step st (EConnect k))) = Some PRefused /\
+    l_listener (step st ERelisten) = Listening /\ l_env (step st ERelisten) = l_env st /\
+    l_conns (step st ERelisten) = l_conns st.
+  Proof.
+    intros Hl Hk. unfold lstep. cbn [lstep_gen]. rewrite Hk, Hl. cbn [with_conn with_listener l_conns l_listener l_env].
+    split; [apply conn_get_set_same|]. repeat split.
+  Qed.
+
+  (** A failed [accept()] changes nothing ... *)
+  Lemma accept_error_harmless (st : lts_state S) : step st EAcceptErr = st.
+  Proof. reflexivity. Qed.
+
+  (** ... whereas before the repair it ended the listener for good. *)
+  Lemma accept_error_v0 (st : lts_state S) :
+    l_listener st = Listening -> l_listener (step0 st EAcceptErr) = Closed.
+  Proof. intros Hl. unfold lstep_v0. cbn [lstep_gen]. rewrite Hl. reflexivity. Qed.
+
+  (** [Closed] is final: whatever happens afterwards (also a re-listen that was under way), nobody
+      listens any more. *)
+  Lemma lstep_gen_closed fixed (st : lts_state S) ev :
+    l_listener st = Closed -> l_listener (stepg fixed st ev) = Closed.
+  Proof.
+    intros Hl. destruct ev as [i|i b|i|i|e|i| | |]; cbn [lstep_gen].
+    - destruct (conn_get i (l_conns st)); exact Hl.
+    - destruct (conn_get i (l_conns st)) as [[|buf|req|d|req h]|]; exact Hl.
+    - destruct (conn_get i (l_conns st)) as [[|buf|req|d|req h]|]; exact Hl.
+    - destruct (conn_get i (l_conns st)) as [[|buf|req|d|req [|]]|]; try exact Hl;
+        unfold run_task; destruct (blocked _ _); try exact Hl;
+        destruct (handle_chk ps _ (l_env st)) as [[hr s']| |]; try exact Hl;
+        cbn [l_listener]; rewrite Hl; destruct (hr_close hr); reflexivity.
+    - destruct (env_step e (l_env st)) as [s' c]. cbn [l_listener]. rewrite Hl. destruct c; reflexivity.
+    - destruct (conn_get i (l_conns st)) as [[|buf|req|d|req h]|]; exact Hl.
+    - rewrite Hl. exact Hl.
+    - rewrite Hl. exact Hl.
+    - destruct fixed; [exact Hl|]. rewrite Hl. exact Hl.
+  Qed.
+
+  Lemma closed_final_gen fixed evs : forall (st : lts_state S),
+    l_listener st = Closed -> l_listener (fold_left (stepg fixed) evs st) = Closed.
+  Proof.
+    induction evs as [|ev r IH]; intros st Hl; [exact Hl|].
+    cbn [fold_left]. apply IH. apply lstep_gen_closed. exact Hl.
+  Qed.
+
+  Lemma closed_final evs (st : lts_state S) :
+    l_listener st = Closed -> l_listener (runl st evs) = Closed.
+  Proof. apply closed_final_gen. Qed.
+
+  (** Before the repair: one failed [accept()] and nobody listens any more, whatever happens next. *)
+  Lemma accept_error_v0_final (st : lts_state S) evs :
+    l_listener st = Listening ->
+    l_listener (lrun_v0 ps blocked env_step ack (step0 st EAcceptErr) evs) = Closed.
+  Proof. intros Hl. apply closed_final_gen. apply accept_error_v0. exact Hl. Qed.
+
+  (** ---- post_send ------------------------------------------------------------------------------------------ *)
+
+  (** The task of a connection whose client has gone away does what it does for a client that still
+      reads: same effect of the plugin, same [close], and the [post_send] runs. *)
+  Lemma task_without_client (st : lts_state S) k req hr s' :
+    conn_get k (l_conns st) = Some (PGone req false) ->
+    blocked req (l_env st) = false ->
+    handle_chk ps req (l_env st) = Ok (hr, s') ->
+    let st1 := step st (EHandle k) in
+    l_env st1 = (if response_ack ps req (l_env st) then ack s' else s') /\
+    l_listener st1 = (if hr_close hr then Closed else l_listener st) /\
+    conn_get k (l_conns st1) = Some (PGone req true) /\
+    l_env st1 = l_env (task true st k req true) /\ l_listener st1 = l_listener (task true st k req true).
+  Proof.
+    intros Hk Hb E. cbn zeta. unfold lstep. cbn [lstep_gen]. rewrite Hk. unfold run_task. rewrite Hb, E.
+    cbn [l_env l_listener l_conns orb]. rewrite andb_true_r.
+    repeat split. apply conn_get_set_same.
+  Qed.
+
+  (** Before the repair the failed write ended the task: the [post_send] did not run. *)
+  Lemma task_without_client_v0 (st : lts_state S) k req hr s' :
+    conn_get k (l_conns st) = Some (PGone req false) ->
+    blocked req (l_env st) = false ->
+    handle_chk ps req (l_env st) = Ok (hr, s') ->
+    l_env (step0 st (EHandle k)) = s'.
+  Proof.
+    intros Hk Hb E. unfold lstep_v0. cbn [lstep_gen]. rewrite Hk. unfold run_task. rewrite Hb, E.
+    cbn [l_env orb]. rewrite andb_false_r. reflexivity.
+  Qed.
+
+  (** ---- quiescence: nobody listens and every connection is finished ------------------------------------------- *)
+
+  Definition terminal (p : conn_phase) : bool :=
+    match p with PRefused | PReplied _ | PGone _ true => true | _ => false end.
+  Definition quiescent (st : lts_state S) : Prop :=
+    l_listener st = Closed /\ forall k p, conn_get k (l_conns st) = Some p -> terminal p = true.
+
+  (** In a quiescent state only the environment can still change the state. *)
+  Lemma quiescent_step fixed (st : lts_state S) ev :
+    quiescent st ->
+    quiescent (stepg fixed st ev) /\
+    (l_env (stepg fixed st ev) = l_env st \/ exists e, l_env (stepg fixed st ev) = fst (env_step e (l_env st))).
+  Proof.
+    intros [Hl Hq].
+    assert (Same : quiescent st /\ (l_env st = l_env st \/ exists e, l_env st = fst (env_step e (l_env st))))
+      by (split; [split; assumption|left; reflexivity]).
+    destruct ev as [i|i b|i|i|e|i| | |]; cbn [lstep_gen].
+    - destruct (conn_get i (l_conns st)) eqn:G; [exact Same|].
+      rewrite Hl. split; [|left; reflexivity]. split; [exact Hl|].
+      intros k p. cbn [with_conn l_conns]. destruct (N.eq_dec k i) as [->|Hn].
+      + rewrite conn_get_set_same. intros Hp. inversion Hp. reflexivity.
+      + rewrite conn_get_set_other by exact Hn. apply Hq.
+    - destruct (conn_get i (l_conns st)) as [[|buf|req|d|req h]|] eqn:G; try exact Same.
+      apply Hq in G. discriminate G.
+    - destruct (conn_get i (l_conns st)) as [[|buf|req|d|req h]|] eqn:G; try exact Same.
+      apply Hq in G. discriminate G.
+    - destruct (conn_get i (l_conns st)) as [[|buf|req|d|req [|]]|] eqn:G; try exact Same;
+        apply Hq in G; discriminate G.
+    - destruct (env_step e (l_env st)) as [s' c] eqn:E. split.
+      + split; [cbn [l_listener]; rewrite Hl; destruct c; reflexivity|exact Hq].
+      + right. exists e. rewrite E. reflexivity.
+    - destruct (conn_get i (l_conns st)) as [[|buf|req|d|req h]|] eqn:G; try exact Same;
+        apply Hq in G; discriminate G.
+    - rewrite Hl. exact Same.
+    - rewrite Hl. exact Same.
+    - destruct fixed; [exact Same|]. rewrite Hl. exact Same.
   Qed.
 End LtsProofs.
+
+(** ---- kvarnctl: what is printed and the exit status -------------------------------------------------------------- *)
+
+Lemma kvarnctl_ping S (ps : plugins S) args s :
+  lookup_plugin (B "ping") ps = Some ping_plugin ->
+  forallb all_scalar args = true ->
+  client_outcome (Data (hr_data (fst (handle ps (utf8_encode (client_message (B "ping") args)) s))))
+  = (0, utf8_encode (join_sp args) ++ [c_newline]).
+Proof.
+  intros Hp Hs. destruct (ping_echo_lemma S ps args s Hp Hs) as [E T]. cbn zeta in E, T.
+  rewrite E. cbn [fst hr_data]. unfold client_outcome. unfold client_reply_tokens in T.
+  destruct (utf8_decode _) as [line|]; [|discriminate T].
+  cbn [option_map] in T. inversion T as [T']. rewrite T'. cbv beta iota. rewrite beq_refl. reflexivity.
+Qed.
+
+Lemma client_outcome_framed prepend data line :
+  utf8_decode (frame prepend data) = Some line ->
+  (prepend = B "ok" -> fst (client_outcome (Data (frame prepend data))) = 0) /\
+  (prepend = B "error" -> client_outcome (Data (frame prepend data)) = (1, [])).
+Proof.
+  intros D. split; intros ->.
+  - destruct (client_reads_status (B "ok") data line (or_introl eq_refl) D) as [rest R].
+    unfold client_outcome. rewrite D, R. cbv beta iota. rewrite beq_refl. reflexivity.
+  - destruct (client_reads_status (B "error") data line (or_intror eq_refl) D) as [rest R].
+    unfold client_outcome. rewrite D, R. cbv beta iota.
+    change (beq (B "error") (B "ok")) with false. cbv iota. rewrite beq_refl. reflexivity.
+Qed.
+
+Lemma kvarnctl_exit S (ps : plugins S) req s :
+  let d := hr_data (fst (handle ps req s)) in
+  (utf8_decode d = None -> client_outcome (Data d) = (6, [])) /\
+  (utf8_decode d <> None ->
+     (classify S ps req s = CPluginOk -> fst (client_outcome (Data d)) = 0) /\
+     (classify S ps req s <> CPluginOk -> client_outcome (Data d) = (1, []))).
+Proof.
+  cbn zeta. split.
+  - intros D. unfold client_outcome. rewrite D. reflexivity.
+  - intros D. unfold classify, handle in *.
+    destruct (utf8_decode req) as [line|].
+    2:{ cbn [fst hr_data] in *. split; intros H; [discriminate H|]. vm_compute. reflexivity. }
+    destruct (lookup_plugin _ ps) as [p|].
+    2:{ cbn [fst hr_data] in *. split; intros H; [discriminate H|]. vm_compute. reflexivity. }
+    destruct (p _ s) as [r s'] eqn:E. cbn [fst snd] in *.
+    destruct (pr_kind r) as [dt|dt]; cbn [fst hr_data] in *.
+    + destruct (utf8_decode (frame (B "ok") dt)) as [l|] eqn:U; [|congruence].
+      destruct (client_outcome_framed (B "ok") dt l U) as [Ho _].
+      split; intros H; [apply Ho; reflexivity|congruence].
+    + destruct (utf8_decode (frame (B "error") dt)) as [l|] eqn:U; [|congruence].
+      destruct (client_outcome_framed (B "error") dt l U) as [_ He].
+      split; intros H; [discriminate H|apply He; reflexivity].
+Qed.
+
+(** ---- the fixture: a shutdown whose client has gone away still finishes -------------------------------------------- *)
+
+Lemma fx_handle_shutdown s :
+  handle_chk fx_plugins_chk (B "shutdown") s
+  = Ok ({| hr_data := B "ok 'Successfully completed a graceful shutdown.'"; hr_close := true |}, fx_shutdown_effect false s).
+Proof. reflexivity. Qed.
+
+Lemma fx_ack_shutdown s : response_ack fx_plugins_chk (B "shutdown") s = true.
+Proof. reflexivity. Qed.
+
+Lemma fx_shutdown_without_client (st : lts_state fx_state) k :
+  conn_get k (l_conns st) = Some (PGone (B "shutdown") false) ->
+  fx_acks (l_env st) = 0 ->
+  fx_finished (l_env (fx_lstep st (EHandle k))) = true /\ l_listener (fx_lstep st (EHandle k)) = Closed.
+Proof.
+  intros Hk Ha. unfold fx_lstep.
+  destruct (task_without_client fx_state fx_plugins_chk fx_blocked fx_env_step fx_ack st k (B "shutdown") _ _ Hk eq_refl
+              (fx_handle_shutdown (l_env st))) as (He & Hl & _).
+  cbn zeta in He, Hl. rewrite He, Hl, fx_ack_shutdown. split; [|reflexivity].
+  unfold fx_finished, fx_ack, fx_shutdown_effect, fx_set_acks, fx_set_shutdown. cbn [fx_shutdown fx_acks andb].
+  rewrite Ha. reflexivity.
+Qed.
+
+Lemma fx_env_step_acks e s : fx_acks (fst (fx_env_step e s)) = fx_acks s.
+Proof. unfold fx_env_step. destruct (e =? 0); reflexivity. Qed.
+
+Lemma fx_quiescent_acks fixed evs : forall (st : lts_state fx_state),
+  quiescent fx_state st ->
+  fx_acks (l_env (fold_left (lstep_gen fx_plugins_chk fx_blocked fx_env_step fx_ack fixed) evs st)) = fx_acks (l_env st).
+Proof.
+  induction evs as [|ev r IH]; intros st Q; [reflexivity|].
+  cbn [fold_left].
+  destruct (quiescent_step fx_state fx_plugins_chk fx_blocked fx_env_step fx_ack fixed st ev Q) as [Q' [E|[e E]]].
+  - rewrite IH by exact Q'. rewrite E. reflexivity.
+  - rewrite IH by exact Q'. rewrite E. apply fx_env_step_acks.
+Qed.
+
+(** Before the repair: a [shutdown] whose client went away before the reply could be written left
+    the instance shut down but never finished, whatever happened afterwards. *)
+Lemma fx_shutdown_hangs_v0 :
+  exists evs, let st := lrun_v0 fx_plugins_chk fx_blocked fx_env_step fx_ack (lts_init fx_init) evs in
+    fx_shutdown (l_env st) = true /\
+    forall evs', fx_finished (l_env (lrun_v0 fx_plugins_chk fx_blocked fx_env_step fx_ack st evs')) = false.
+Proof.
+  exists [EConnect 1; ESend 1 (B "shutdown"); EDrop 1; EHandle 1]. cbn zeta.
+  set (st := lrun_v0 fx_plugins_chk fx_blocked fx_env_step fx_ack (lts_init fx_init)
+               [EConnect 1; ESend 1 (B "shutdown"); EDrop 1; EHandle 1]).
+  assert (Est : st = {| l_listener := Closed; l_env := fx_shutdown_effect false fx_init;
+                        l_conns := [(1, PGone (B "shutdown") true)] |}) by reflexivity.
+  split; [rewrite Est; reflexivity|].
+  intros evs'. unfold lrun_v0, lstep_v0.
+  assert (Q : quiescent fx_state st).
+  { rewrite Est. split; [reflexivity|]. intros k p. cbn [l_conns conn_get].
+    destruct (1 =? k); [|discriminate]. intros H. inversion H. reflexivity. }
+  unfold fx_finished. rewrite (fx_quiescent_acks false evs' st Q). rewrite Est. cbn [l_env].
+  change (fx_acks (fx_shutdown_effect false fx_init)) with 1. rewrite andb_false_r. reflexivity.
+Qed.
+
+(** ... and the same history with the repaired task finishes. *)
+Lemma fx_shutdown_finishes_fixed :
+  fx_finished (l_env (lrun fx_plugins_chk fx_blocked fx_env_step fx_ack (lts_init fx_init)
+                        [EConnect 1; ESend 1 (B "shutdown"); EDrop 1; EHandle 1])) = true.
+Proof. reflexivity. Qed.
+
+(** Before its repair [wait] panicked once the shutdown had collected its acknowledgements: a request
+    that was accepted before the shutdown and handled after it got an empty reply (the task died);
+    the repaired plugin answers [ok]. *)
+Lemma fx_wait_after_shutdown_v0 :
+  let evs := [EConnect 1; EConnect 2; ESend 2 (B "shutdown"); EFin 2; EHandle 2; ESend 1 (B "wait"); EFin 1; EHandle 1] in
+  conn_get 1 (l_conns (lrun fx_plugins_chk_v0 fx_blocked fx_env_step fx_ack (lts_init fx_init) evs)) = Some (PReplied []) /\
+  conn_get 1 (l_conns (lrun fx_plugins_chk fx_blocked fx_env_step fx_ack (lts_init fx_init) evs)) = Some (PReplied (B "ok")) /\
+  ~ plugins_total fx_plugins_chk_v0.
+Proof.
+  cbn zeta. split; [vm_compute; reflexivity|]. split; [vm_compute; reflexivity|].
+  intros T. destruct (T (B "wait") wait_plugin_v0 eq_refl [] (fx_shutdown_effect true fx_init)) as [r E].
+  vm_compute in E. discriminate E.
+Qed.
